@@ -175,8 +175,13 @@ class PointSkyRegion(SkyRegion):
         self.visual = visual or RegionVisual()
 
     def contains(self, skycoord, wcs):  # pylint: disable=unused-argument
-        # points never include anything
-        return not self.meta.get('include', True)
+        # points never include anything; as for every other region, the
+        # answer has the shape of the queried coordinates
+        in_reg = (False if skycoord.isscalar
+                  else np.zeros(skycoord.shape, dtype=bool))
+        if self.meta.get('include', True):
+            return in_reg
+        return np.logical_not(in_reg)
 
     def to_pixel(self, wcs):
         center_x, center_y = wcs.world_to_pixel(self.center)
